@@ -110,7 +110,8 @@ def run_ga(case, ctx):
     viols, evals, noise = [], 0, 0.0
     try:
         inner = make_inner(rng, D, in_sig, out_sig, record)
-        ga = models.GroupAverage(inner, [np.asarray(g) for g in Gp], always, inference)
+        empty_ops = case["i"] % 11 == 5
+        ga = models.GroupAverage(inner, [] if empty_ops else [np.asarray(g) for g in Gp], always, inference)
         # multi-step history on the flags: the usual equinox idiom eqx.nn.inference_mode(model, value=...) switches the
         # `inference` leaves; "always average" must survive it, inference-only averaging must follow it
         import equinox as eqx
@@ -121,7 +122,7 @@ def run_ga(case, ctx):
             inference = tv
         key["toggles"] = toggles
         x = mlgen.random_multi(rng, in_sig, D, sp, torus)
-        on = always or inference
+        on = (always or inference) and not empty_ops  # an empty operator list means: the inner model
         record.clear()
         y = ga(x)[0]
         evals += 1
